@@ -286,6 +286,25 @@ def run(R):
                 R.violation(f'bytes-differ-{mech}', f'serialize({name}) differs from the TL binary encoding ({len(got)} vs {len(want)} bytes)', dict(W, got_hex=got.hex() if len(got) < 600 else None))
                 continue
             R.count('encodings_equal')
+            if k % 5 == 0:
+                # the other spellings of the same call: constructor given by name; unboxed (no id prefix) serialise / parse with explicit args;
+                # the registry looked up by id in every accepted form
+                st2, g2 = mon.call(lib.serialize, name, v)
+                R.check(st2 == 'ok' and g2 == want, 'serialize-by-name-differs', f'serialize("{name}", ...) differs from serialize(schema object, ...)', W)
+                st3, g3 = mon.call(lib.serialize, lib.get_by_name(name), v, False)
+                R.check(st3 == 'ok' and g3 == want[4:], 'serialize-unboxed-differs', f'serialize({name}, boxed=False) is not the boxed encoding without its id', W)
+                st4, r4 = mon.call(lib.deserialize, want[4:], False, lib.get_by_name(name).args)
+                if st4 == 'ok' and isinstance(r4, tuple) and isinstance(r4[0], dict):
+                    exp4 = v if auto else strip_nested(codec, ctor, v)
+                    d4 = first_diff({kk: vv for kk, vv in norm_obj(codec, ctor, exp4).items() if kk != '@type'}, {kk: vv for kk, vv in norm_obj(codec, ctor, dict(r4[0], **{'@type': name})).items() if kk != '@type'})
+                    R.check(d4 is None and r4[1] == len(want) - 4, 'deserialize-unboxed-differs', f'deserialize({name} body, boxed=False, args) differs: {d4}, consumed {r4[1]} of {len(want) - 4}', W)
+                else:
+                    R.violation('deserialize-unboxed-raises', f'deserialize({name} body, boxed=False, args) gave {mon.srepr(r4, 80)}', W)
+                sch = lib.get_by_name(name)
+                forms = [lib.get_by_id(sch.id), lib.get_by_id(sch.id, 'big'), lib.get_by_id(sch.little_id(), 'little'), lib.get_by_id(int.from_bytes(sch.id, 'big')),
+                         lib.get_by_id(int.from_bytes(sch.id, 'big'), 'big'), lib.get_by_id(int.from_bytes(sch.little_id(), 'little'), 'little') if False else sch]
+                R.check(all(x is sch for x in forms), 'registry-id-lookup-forms', f'get_by_id of {name} by bytes/int in big/little order does not always return the constructor', W)
+                R.count('alternative_call_forms')
             # parse the reference bytes
             st, res = mon.call(lib.deserialize, want)
             if st == 'exc':
@@ -313,6 +332,43 @@ def run(R):
                                                                  ('bare-object' if t in codec.by_name else 'boxed-object')))
     R.extra['generator_stats'] = G.stats
 
+    # ---- a polymorphic field may be given already serialised; a schema file loaded on its own gives the same constructors as inside the bundle
+    if R.shard == 0:
+        import os as _os
+        poly = [(n, f, t) for n in supported for f, t in ctors[n].fields if t in codec.by_class and len(codec.by_class[t]) > 1 and '?' not in t][:40]
+        for n, f, t in poly:
+            try:
+                v = G.obj(ctors[n], 0, True, None)
+                want = codec.encode(v)
+            except RecursionError:
+                continue
+            sub = v[f]
+            if not (isinstance(sub, dict) and '@type' in sub):
+                continue
+            pre = dict(v, **{f: codec.encode(sub)})
+            st, got = mon.call(lib_auto.serialize, lib_auto.get_by_name(n), pre)
+            R.check(st == 'ok' and got == want, 'preserialised-polymorphic-field-differs', f'{n}.{f} given as already serialised bytes is not written as they are: {mon.srepr(got, 60)}',
+                    {'constructor': n, 'field': f})
+            R.count('preserialised_fields')
+        sdir = _os.path.join(mon.REPO, 'pytoniq_core', 'tl', 'schemas')
+        loaded = {}
+        for fn in sorted(_os.listdir(sdir)):
+            st, one_file = mon.call(lambda: TlGenerator(_os.path.join(sdir, fn)).generate())
+            if st == 'exc':
+                R.violation('single-schema-file-raises', f'TlGenerator({fn}).generate() raised {one_file!r}', {'file': fn})
+                continue
+            loaded[fn] = one_file
+        times = {}
+        for one_file in loaded.values():
+            for x in one_file.list:
+                if not x.is_empty():
+                    times[x.name] = times.get(x.name, 0) + 1
+        for fn, one_file in loaded.items():
+            # names declared in more than one file (the built-in types int256, bytes, ... are) resolve to one of their declarations in the bundle: not compared
+            bad = [x.name for x in one_file.list if not x.is_empty() and times[x.name] == 1 and
+                   (lib_auto.get_by_name(x.name) is None or lib_auto.get_by_name(x.name).id != x.id or dict(lib_auto.get_by_name(x.name).args) != dict(x.args))]
+            R.check(not bad and len([x for x in one_file.list if not x.is_empty()]) > 0, 'single-schema-file-differs', f'{fn} loaded on its own registers other ids/fields than inside the bundle: {bad[:5]}', {'file': fn})
+            R.count('single_schema_files')
     # ---- block id helpers
     for i in range(50 if quick else 20000):
         wc = rng.choice([0, -1, 2 ** 31 - 1, -2 ** 31, rng.randrange(-100, 100)])
@@ -328,6 +384,7 @@ def run(R):
         R.floor('constructors_exercised', 600, 'set')
     R.floor('registry_compared', 700)
     R.floor('roundtrips_equal', 300)
+    R.floor('alternative_call_forms', 100)
     R.floor('type_forms', 12, 'set')
 
 
